@@ -4,7 +4,7 @@ CHECK = {
              "{E<e>: run event e in {0,1,2} to completion after reseed; A<e>.<k>: run event e in {0,2} for "
              "k in {1,3} Stepper calls, abandon it between two calls, reset_state(); X: abort the event BY "
              "AN EXCEPTION in the middle of a step, then reset_state() - a user action throwing at its "
-             "n-th invocation at user_post (X0.1.post, X2.2.post: killed slots / pending secondaries) or "
+             "n-th invocation at user_post (X0.2.post, X2.4.post: killed slots / pending secondaries) or "
              "user_start (X2.2.start: initializing slots), or the n-th interaction throwing inside the "
              "interaction kernel (X0.2.int); V: a Stepper call with the invalid event id max_events "
              "(rejected), reset_state(); W: warm_up() as first letter} on one Stepper, each history "
